@@ -37,6 +37,8 @@ enum Expect {
     Exactly(Vec<(Vec<u8>, [u8; 32], u64)>),
     /// Ok or Err, no panic
     Total,
+    /// as Total, with the start-up scan on (the blob-path decoder sees the planted names)
+    TotalWithScan,
 }
 
 struct Verdict {
@@ -53,7 +55,7 @@ fn judge<K: SimKey>(case: &Case, img: &Disk, expect: &Expect, desc: &str, alloc_
     sim.disk = Disk::from_dir(&base).expect("image");
     interpose::install(sim);
     let mut w = World::<K>::new(&base, wl);
-    w.cfg.scan = false;
+    w.cfg.scan = matches!(expect, Expect::TotalWithScan);
     w.cfg.fail_on_integrity = false;
     w.cfg.async_mode = false;
     let cfg = w.cfg.clone();
@@ -376,6 +378,39 @@ pub fn run_forge<K: SimKey>(case: &Case, fseed: u64, budget: u32) -> Outcome {
             }
         }
     }
+    // ---- (iv) blob-path decoder: stray names under cas/ seen by the start-up scan ----------------
+    {
+        let mut h = [0u8; 32];
+        h.copy_from_slice(&rng.bytes(32));
+        let hex: String = h.iter().map(|b| format!("{b:02x}")).collect();
+        let names: Vec<String> = vec![
+            format!("{}/{}/{}", &hex[0..3], &hex[3..4], &hex[4..]),   // 3/1/60
+            format!("{}/{}/{}", &hex[0..1], &hex[1..4], &hex[4..]),   // 1/3/60
+            format!("{}/{}/{}", &hex[0..4], &hex[4..6], &hex[6..]),   // 4/2/58
+            format!("{}/{}/{}", &hex[0..2], &hex[2..3], &hex[3..]),   // 2/1/61
+            format!("{}/{}/{}", &hex[0..2], &hex[2..4], hex[4..].to_uppercase()),
+            format!("{}/{}/{}", &hex[0..2], &hex[2..4], &hex[4..63]),  // 63 digits
+            format!("{}/{}/{}g", &hex[0..2], &hex[2..4], &hex[4..63]), // non-hex
+            format!("{}/{}/{}", &hex[0..2], &hex[2..4], "é".repeat(30)), // multi-byte, 60 bytes
+            format!("{}/{}/x", &hex[0..2], &hex[2..4]),
+            format!("{}/x", &hex[0..2]),
+            "x".to_string(),
+        ];
+        for name in names {
+            // (a fixed, small set: not charged to the per-history budget)
+            let mut img = real.clone();
+            let rel = format!("db/cas/{name}");
+            let parts: Vec<&str> = rel.split('/').collect();
+            for i in 1..parts.len() {
+                img.dirs.insert(parts[..i].join("/"));
+            }
+            set_file(&mut img, &rel, b"stray".to_vec());
+            if let Err(f) = judge::<K>(case, &img, &Expect::TotalWithScan, &format!("stray file at cas/{name}"), None, &mut out) {
+                fail_with(f, &mut out);
+                return out;
+            }
+        }
+    }
     // settings file forgeries
     for (what, b) in [
         ("settings: not JSON", b"{".to_vec()),
@@ -385,10 +420,7 @@ pub fn run_forge<K: SimKey>(case: &Case, fseed: u64, budget: u32) -> Outcome {
         ("settings: huge num_ops_per_wal", br#"{"version":4,"dir_tree_is_pre_created":false,"num_ops_per_wal":18446744073709551616}"#.to_vec()),
         ("settings: missing field", br#"{"version":4}"#.to_vec()),
     ] {
-        if left <= 0 {
-            break;
-        }
-        left -= 1;
+        let _ = left;
         let mut img = real.clone();
         set_file(&mut img, "db/db_settings.json", b);
         if let Err(f) = judge::<K>(case, &img, &Expect::Total, what, None, &mut out) {
